@@ -179,6 +179,23 @@ theorem Mid.schedule (s : State) (D : List Nat) (h : Mid s D) (sp : RawSpec) (cl
             rw [← State.find_append_lt s _ k hlt]; exact hf
           exact h.hasAtt k hk hkD sj this
 
+/-- a job object that exists but is not registered -/
+theorem Mid.addHeap (s : State) (D : List Nat) (h : Mid s D) (sj : SJob) (hj : JobOK sj.job) :
+    Mid { s with heap := s.heap ++ [sj] } D := by
+  refine ⟨h.nodup, ?_, ?_, ?_⟩
+  · intro k hk
+    have := h.inHeap k hk
+    simp only [List.length_append, List.length_singleton]; omega
+  · intro sj' hsj
+    rcases List.mem_append.mp hsj with h1 | h1
+    · exact h.heapOK sj' h1
+    · simp at h1; subst h1; exact hj
+  · intro k hk hkD sj' hf
+    have hlt := h.inHeap k hk
+    have : s.find k = some sj' := by
+      rw [← State.find_append_lt s _ k hlt]; exact hf
+    exact h.hasAtt k hk hkD sj' this
+
 theorem Mid.deleteJob (s : State) (D : List Nat) (h : Mid s D) (k : Nat) : Mid (deleteJob s k).1 D := by
   unfold SV.deleteJob
   split
@@ -461,7 +478,14 @@ theorem Inv.execJobs (s : State) (h : Inv s) (clock : Int) (force : Bool) (order
 theorem Inv.step (s : State) (h : Inv s) (op : Op) : Inv (step s op).1 := by
   cases op with
   | sched sp clock => exact Mid.schedule s [] h sp clock false
-  | ctor sp clock => exact Mid.schedule s [] h sp clock true
+  | ctor sp clock jtz =>
+      simp only [SV.step]
+      split
+      · exact Mid.schedule s [] h sp clock true
+      · split
+        · exact h
+        · rename_i j hj
+          exact Mid.addHeap s [] h _ (JobOK.ofCreateJob jtz sp clock true j (by simpa using hj))
   | exec clock force order raises scripts => exact Inv.execJobs s h clock force order raises scripts
   | del k => exact Mid.deleteJob s [] h k
   | delTags q any => exact Mid.deleteJobs s [] h q any
